@@ -27,13 +27,18 @@ Proof.
 Qed.
 
 Lemma init_liveok : LiveOK init_state /\ NoDup (live init_state).
-Proof. split; [intros m Hm; destruct Hm|constructor]. Qed.
+Proof.
+  split; [split|constructor].
+  - intros m Hm; destruct Hm.
+  - intros i d [k H]. unfold slot in H. cbn in H. discriminate.
+Qed.
 
-(* the grammar never trips a marker assertion and returns with no live marker, for every
-   token sequence and every recursion fuel *)
+(* the grammar never trips a marker assertion and returns with no live marker and with every
+   forward-parent pointer leading strictly forward to a Start event, for every token sequence
+   and every recursion fuel *)
 Theorem source_file_markers inp n :
   match source_file inp (tie inp n) init_state with
-  | Ok _ s => live s = []
+  | Ok _ s => live s = [] /\ EvOK s
   | Panic w => ~ mark w
   | OutOfFuel => True
   end.
@@ -41,32 +46,110 @@ Proof.
   destruct init_liveok as [HL HN].
   pose proof (source_file_B inp _ (tie_good inp n) init_state HL HN) as H.
   unfold WB in H. destruct (source_file inp (tie inp n) init_state) as [a s|w|]; auto.
-  destruct H as [[_ [Hl _]] _]. exact Hl.
+  destruct H as [[[_ HE] [Hl _]] _]. split; [exact Hl|exact HE].
 Qed.
+
+(* ---------------- event::process ---------------- *)
+(* the same well-formedness on an oldest-first event list *)
+Definition WFL (L : list event) : Prop :=
+  forall i k d, nth_error L i = Some (EStart k (Some d)) ->
+    0 < d /\ exists k' fp', nth_error L (i + d) = Some (EStart k' fp').
+
+Lemma set_nth'_length {A} (l : list A) i x : length (set_nth' l i x) = length l.
+Proof. revert i. induction l as [|y l IH]; intros [|i]; cbn; auto. Qed.
+Lemma nth_error_set_nth'_same {A} (l : list A) i x : i < length l -> nth_error (set_nth' l i x) i = Some x.
+Proof. revert i. induction l as [|y l IH]; intros [|i] H; cbn in *; try lia; auto. apply IH. lia. Qed.
+Lemma nth_error_set_nth'_other {A} (l : list A) i j x : i <> j -> nth_error (set_nth' l i x) j = nth_error l j.
+Proof. revert i j. induction l as [|y l IH]; intros [|i] [|j] H; cbn; auto; try lia. Qed.
+
+(* tombstoning a Start slot keeps the list well-formed *)
+Lemma wfl_tomb L j k fp :
+  WFL L -> nth_error L j = Some (EStart k fp) -> WFL (set_nth' L j (EStart K_TOMBSTONE None)).
+Proof.
+  intros HW Hj i k1 d Hi.
+  assert (j < length L) as Hlt by (apply nth_error_Some; congruence).
+  destruct (Nat.eq_dec j i) as [->|Hne].
+  - rewrite nth_error_set_nth'_same in Hi by exact Hlt. discriminate.
+  - rewrite nth_error_set_nth'_other in Hi by exact Hne.
+    destruct (HW i k1 d Hi) as [Hd [k' [fp' Ht]]]. split; auto.
+    destruct (Nat.eq_dec j (i + d)) as [->|Hne2].
+    + eexists _, _. apply nth_error_set_nth'_same. exact Hlt.
+    + exists k', fp'. rewrite nth_error_set_nth'_other by exact Hne2. exact Ht.
+Qed.
+
+(* a pointer fp leaving slot idx is good when it leads strictly forward to a Start slot *)
+Definition good_fp (L : list event) (idx : nat) (fp : option nat) : Prop :=
+  match fp with
+  | None => True
+  | Some d => 0 < d /\ exists k' fp', nth_error L (idx + d) = Some (EStart k' fp')
+  end.
+
+Lemma fp_chain_total fuel : forall L idx fp acc,
+  WFL L -> good_fp L idx fp -> length L - idx <= fuel ->
+  exists kinds L', fp_chain fuel L idx fp acc = Some (kinds, L') /\ WFL L' /\ length L' = length L.
+Proof.
+  induction fuel as [|f IH]; intros L idx fp acc HW Hg Hf.
+  - destruct fp as [d|]; [|exists acc, L; cbn; auto].
+    destruct Hg as [Hd [k' [fp' Ht]]].
+    assert (idx + d < length L) by (apply nth_error_Some; congruence). lia.
+  - destruct fp as [d|]; [|exists acc, L; cbn; auto].
+    destruct Hg as [Hd [k' [fp' Ht]]].
+    assert (idx + d < length L) as Hlt by (apply nth_error_Some; congruence).
+    cbn [fp_chain]. rewrite Ht.
+    set (L1 := set_nth' L (idx + d) (EStart K_TOMBSTONE None)).
+    assert (WFL L1) as HW1 by (eapply wfl_tomb; eauto).
+    assert (good_fp L1 (idx + d) fp') as Hg1.
+    { destruct fp' as [d'|]; [|exact I]. destruct (HW _ _ _ Ht) as [Hd' [k2 [fp2 Ht2]]].
+      split; auto. exists k2, fp2. unfold L1. rewrite nth_error_set_nth'_other by lia. exact Ht2. }
+    destruct (IH L1 (idx + d) fp' (k' :: acc) HW1 Hg1) as [kinds [L' [E [HW' Hl']]]].
+    { unfold L1. rewrite set_nth'_length. lia. }
+    exists kinds, L'. split; [exact E|split; [exact HW'|]].
+    rewrite Hl'. unfold L1. apply set_nth'_length.
+Qed.
+
+Lemma process_loop_total fuel : forall L i out, WFL L -> exists st, process_loop fuel L i out = Some st.
+Proof.
+  induction fuel as [|f IH]; intros L i out HW; [eexists; reflexivity|].
+  cbn [process_loop]. destruct (nth_error L i) as [[k fp| |k n|]|] eqn:E; try (apply IH; exact HW);
+    [|eexists; reflexivity].
+  assert (good_fp L i fp) as Hg.
+  { destruct fp as [d|]; [|exact I]. apply (HW _ _ _ E). }
+  destruct (fp_chain_total (length L) L i fp [k] HW Hg) as [kinds [L' [E' [HW' _]]]]; [lia|].
+  rewrite E'. apply IH. exact HW'.
+Qed.
+
+Lemma evok_wfl s : EvOK s -> WFL (rev (evs s)).
+Proof.
+  intros HE i k d Hi. rewrite <- slot_rev in Hi.
+  destruct (HE i d (ex_intro _ k Hi)) as [Hd [k' [fp' Ht]]]. split; auto.
+  exists k', fp'. rewrite <- slot_rev. exact Ht.
+Qed.
+
+Theorem process_total s : EvOK s -> exists st, process (rev (evs s)) = Some st.
+Proof. intros HE. unfold process. apply process_loop_total. apply evok_wfl. exact HE. Qed.
 
 (* with theorem A: the grammar phase returns normally, all tokens consumed, no marker left *)
 Theorem grammar_phase_total inp :
   (forall i k j, nth_error inp i = Some (k, j) -> k <> K_EOF) ->
   exists s, source_file inp (tie inp (fuel_for inp)) init_state = Ok tt s /\
-            pos s = ntoks inp /\ live s = [].
+            pos s = ntoks inp /\ live s = [] /\ EvOK s.
 Proof.
   intros Hno. pose proof (source_file_total inp Hno) as HA.
   pose proof (source_file_markers inp (fuel_for inp)) as HB.
   destruct (source_file inp (tie inp (fuel_for inp)) init_state) as [[] s|w|].
-  - exists s. auto.
+  - exists s. destruct HB. auto.
   - exfalso. apply HB. destruct w; cbn in HA |- *; auto.
   - destruct HA.
 Qed.
 
-(* hence the only panic site the parser model can still reach is event::process *)
-Theorem run_parser_B inp :
+(* hence the parser model returns its steps on every token sequence: no panic site of
+   parser.rs, marker.rs (Marker, CompletedMarker, DropBomb), the grammar or event.rs is reachable
+   and there is no hang *)
+Theorem run_parser_total_AB inp :
   (forall i k j, nth_error inp i = Some (k, j) -> k <> K_EOF) ->
-  match run_parser inp with
-  | Steps _ => True
-  | Panicked w => w = SProcess
-  | Hang => False
-  end.
+  exists st, run_parser inp = Steps st.
 Proof.
-  intros Hno. destruct (grammar_phase_total inp Hno) as [s [E [_ Hl]]].
-  unfold run_parser. rewrite E, Hl. destruct (process _); auto.
+  intros Hno. destruct (grammar_phase_total inp Hno) as [s [E [_ [Hl HE]]]].
+  destruct (process_total s HE) as [st Hp].
+  exists st. unfold run_parser. rewrite E, Hl, Hp. reflexivity.
 Qed.
